@@ -23,7 +23,7 @@ import io, json, contextlib, itertools
 import numpy as np, pandas as pd
 from . import common as C
 
-PROP = "C13"; LEVEL = "exploration"; P_TIER = False
+PROP = "C13"; LEVEL = "exploration"; P_TIER = True
 ASSUMPTIONS = ["the reference of every comparison is the same call on a GroupBy freshly built from the same keys in the same way (same container, same chunking threshold)",
                "floating results compared with relative tolerance 1e-12 (the driven values are dyadic rationals, so sums are exact in every evaluation order)",
                "exceptions are compared by type", "pandas / pyarrow / polars comparison helpers behave as documented",
